@@ -51,12 +51,19 @@ POS_SET = dict(file="src/state.rs", container="AtomicPosition", name="set", sig_
                         ("frame", "final(self).capacity@ == old(self).capacity@ && final(self).prev@ == old(self).prev@ && final(self).start == old(self).start")])
 
 # BarState::draw -- at this level only the frame: drawing never changes the logical state
+TIME_OK = "spec fn time_ok(t: Instant) -> bool { t.ns() < 0x8000_0000_0000_0000 }\n"
+# every BarState entry point: the draw target is well formed before and after, and `now` is a clock reading
+BAR_REQ = [("target-wf", "old(self).draw_target.wf2()"), ("clock", "time_ok(now)")]
+BAR_WF_POST = ("target-wf", "final(self).draw_target.wf2()")
+
 BAR_DRAW = dict(file="src/state.rs", container="BarState", name="draw", ret="r",
                 sig_rewrites=[IO_RESULT],
-                ensures=[("frame-logical", "logical_same(*old(self), *final(self))")])
+                requires=BAR_REQ,
+                ensures=[("frame-logical", "logical_same(*old(self), *final(self))"), BAR_WF_POST])
 
 BAR_UPDATE_AND_DRAW = dict(file="src/state.rs", container="BarState", name="update_estimate_and_draw",
-                           ensures=[("frame-logical", "logical_same(*old(self), *final(self))")])
+                           requires=BAR_REQ,
+                           ensures=[("frame-logical", "logical_same(*old(self), *final(self))"), BAR_WF_POST])
 
 TRACKERS_RESET = Rw("R5", r"for tracker in self\.style\.format_map\.values_mut\(\) \{\s*tracker\.reset\(&self\.state, now\);\s*\}",
                     "self.style.reset_trackers(&self.state, now);")
@@ -65,7 +72,8 @@ TRACKERS_TICK = Rw("R5", r"for tracker in self\.style\.format_map\.values_mut\(\
 
 BAR_RESET = dict(file="src/state.rs", container="BarState", name="reset",
                  rewrites=[TRACKERS_RESET],
-                 ensures=[
+                 requires=BAR_REQ,
+                 ensures=[BAR_WF_POST,
                      ("C07-reset-all", "mode is All ==> final(self).state.pos.pos@ == 0 && final(self).state.status is InProgress"),
                      ("C07-reset-partial", "!(mode is All) ==> final(self).state.pos.pos@ == old(self).state.pos.pos@ && final(self).state.status == old(self).state.status"),
                      ("C07-len-untouched", "final(self).state.len == old(self).state.len"),
@@ -74,7 +82,8 @@ BAR_RESET = dict(file="src/state.rs", container="BarState", name="reset",
                  ])
 
 BAR_FINISH = dict(file="src/state.rs", container="BarState", name="finish_using_style",
-                  ensures=[
+                  requires=BAR_REQ,
+                  ensures=[BAR_WF_POST,
                       ("C04-finished", "final(self).state.finished()"),
                       ("C04-status", "final(self).state.status == (if finish is AndClear { Status::DoneHidden } else { Status::DoneVisible })"),
                       ("C04-C07-position",
